@@ -102,6 +102,7 @@ Inductive leaf :=
 | LInner (w v : list T)                               (* InnerProductOperator(v) *)
 | LZero (wd wr : list T)                              (* ZeroOperator(domain, range) *)
 | LMatrix (wd wr : list T) (M : list (list T))        (* MatrixOperator(M, domain, range), 1-d *)
+| LMatrixAx (wd wr : list T) (shape : list nat) (ax : nat) (M : list (list T))  (* N-d domain, axis *)
 | LSampling (wd : list T) (idx : list nat) (integrate : bool) (cv : T)
 | LWSum (wr : list T) (idx : list nat) (dirac : bool) (cv : T)
 | LFlatten (wd : list T) (perm : list nat) (cv : T)   (* FlatteningOperator *)
@@ -127,7 +128,7 @@ Definition leaf_dom (l : leaf) : list T :=
   match l with
   | LScaling w _ | LMultiply w _ | LInner w _ => w
   | LMulField _ _ => [none_]
-  | LZero wd _ | LMatrix wd _ _ | LSampling wd _ _ _ | LFlatten wd _ _ => wd
+  | LZero wd _ | LMatrix wd _ _ | LMatrixAx wd _ _ _ _ | LSampling wd _ _ _ | LFlatten wd _ _ => wd
   | LWSum _ idx _ _ => ones (length idx)
   | LUnflatten _ perm _ => ones (length perm)
   | LProj ws pw _ => pweights pw ws
@@ -142,7 +143,7 @@ Definition leaf_ran (l : leaf) : list T :=
   match l with
   | LScaling w _ | LMultiply w _ | LMulField w _ => w
   | LInner _ _ => [none_]
-  | LZero _ wr | LMatrix _ wr _ | LWSum wr _ _ _ | LUnflatten wr _ _ => wr
+  | LZero _ wr | LMatrix _ wr _ | LMatrixAx _ wr _ _ _ | LWSum wr _ _ _ | LUnflatten wr _ _ => wr
   | LSampling _ idx _ _ => ones (length idx)
   | LFlatten _ perm _ => ones (length perm)
   | LProj ws _ i => nth i ws []
@@ -193,6 +194,8 @@ Definition eval_leaf (l : leaf) (x : list T) : list T :=
   | LInner w v => [cinner w x v]
   | LZero _ wr => zeros (length wr)
   | LMatrix _ _ M => mvec M x
+  | LMatrixAx _ _ shape ax M =>     (* np.tensordot(M, x, axes=(1, axis)) moved back to position axis *)
+      along (prodn (firstn ax shape)) (nth ax shape O) (prodn (skipn (S ax) shape)) (length M) (mvec M) x
   | LSampling _ idx integrate cv =>
       if integrate then map (fun a => a * cv) (gather idx x) else gather idx x
   | LWSum wr idx dirac cv =>
@@ -297,6 +300,8 @@ Definition leaf_adjoint (l : leaf) : oexpr :=
   | LInner w v => Leaf (LMulField w v)
   | LZero wd wr => Leaf (LZero wr wd)
   | LMatrix wd wr M => Leaf (LMatrix wr wd (conjT (length wd) M))
+  | LMatrixAx wd wr shape ax M =>
+      Leaf (LMatrixAx wr wd (firstn ax shape ++ length M :: skipn (S ax) shape) ax (conjT (nth ax shape O) M))
   | LSampling wd idx integrate cv => Leaf (LWSum wd idx (negb integrate) cv)
   | LWSum wr idx dirac cv => Leaf (LSampling wr idx (negb dirac) cv)
   | LFlatten wd perm cv => LScal (none_ / cv) (Leaf (LUnflatten wd perm cv))
